@@ -316,10 +316,10 @@ int main(void)
                    (long) SH->ival[3], (long) SH->ival[4], (long) SH->ival[5]);
             pr_vec(bv, lbv); pr_ivec(bri, lbv); pr_ivec(bcp, lbc); printf("\n");
         } else if (!strcmp(cmd, "factor")) {
-            /* factor id permc panel relax maxsuper n nnz colptr[n+1] rowind[nnz] val[nnz]
+            /* factor id nprocs permc panel relax maxsuper n nnz colptr[n+1] rowind[nnz] val[nnz]
                -> R id ok info n nsuper | Lval | nzbeg nzend | rowind | ribeg riend | col2sup supbeg supend |
                   Uval | urowind ucolbeg ucolend | perm_r perm_c                                        */
-            long permc = rd_long(), panel = rd_long(), relax = rd_long(), maxsup = rd_long();
+            long nprocs = rd_long(), permc = rd_long(), panel = rd_long(), relax = rd_long(), maxsup = rd_long();
             long n = rd_long(), nnz = rd_long();
             int_t *colptr = rd_ivec(n + 1, 0), *rowind = rd_ivec(nnz, 0);
             scal_t *val = rd_vec(nnz, 0);
@@ -332,7 +332,7 @@ int main(void)
             fflush(stdout);
             { int so = dup(1), fd = open("/dev/null", O_WRONLY); dup2(fd, 1);
               get_perm_c(permc, &A, perm_c);
-              PGSSV(1, &A, perm_c, perm_r, &L, &U, &B, &info);
+              PGSSV(nprocs, &A, perm_c, perm_r, &L, &U, &B, &info);
               fflush(stdout); dup2(so, 1); close(so); close(fd); }
             printf("R %s ok %ld %ld", id, (long) info, n);
             if (info == 0) {
